@@ -1,12 +1,12 @@
 package main
 
 import (
-	"os"
 	"fmt"
 	"go/ast"
 	"go/constant"
 	"go/token"
 	"go/types"
+	"os"
 	"sort"
 	"strings"
 
@@ -75,6 +75,7 @@ func runC09(c *Ctx) {
 	derivedFlagsFresh(c, "C09.R9")
 	importListNotMutatedWhileRanged(c, "C09.R10")
 	lineBreakIsNewlineOnly(c, "C09.R11")
+	shiftProbeOnWholeSource(c, "C09.R13")
 	contentVerbatimRule = "C09.R12"
 	contentVerbatim(c, c.pkg("parser/v2"), c.pkg("generator"))
 	contentVerbatimRule = "C08.R4"
@@ -899,21 +900,88 @@ func importCountDecidedLast(c *Ctx) {
 	p := c.pkg("cmd/templ/imports")
 	info := p.TypesInfo
 	n := 0
+	isMutator := func(fn *types.Func) bool {
+		if fn == nil || fn.Pkg() == nil || !strings.HasSuffix(fn.Pkg().Path(), "ast/astutil") {
+			return false
+		}
+		switch fn.Name() {
+		case "AddNamedImport", "DeleteNamedImport", "AddImport", "DeleteImport", "DeleteUnusedImports":
+			return true
+		}
+		return false
+	}
+	// a call that edits the import list: one of astutil's editors, a call that is handed one of them as a function
+	// value (editImport(astutil.DeleteNamedImport, …)), or a helper of the package that does either
+	var mutates func(call *ast.CallExpr, depth int) bool
+	mutates = func(call *ast.CallExpr, depth int) bool {
+		fn := calleeOf(info, call)
+		if isMutator(fn) {
+			return true
+		}
+		for _, a := range call.Args {
+			switch v := ast.Unparen(a).(type) {
+			case *ast.SelectorExpr:
+				if f2, ok := info.Uses[v.Sel].(*types.Func); ok && isMutator(f2) {
+					return true
+				}
+			case *ast.Ident:
+				if f2, ok := info.Uses[v].(*types.Func); ok && isMutator(f2) {
+					return true
+				}
+			}
+		}
+		if fn != nil && fn.Pkg() == p.Types && depth < 2 {
+			for _, hd := range allFuncDecls(p) {
+				if info.Defs[hd.Name] == types.Object(fn) && hd.Body != nil {
+					found := false
+					ast.Inspect(hd.Body, func(m ast.Node) bool {
+						if c2, ok := m.(*ast.CallExpr); ok && mutates(c2, depth+1) {
+							found = true
+						}
+						return !found
+					})
+					return found
+				}
+			}
+		}
+		return false
+	}
 	for _, fd := range allFuncDecls(p) {
 		var tests []*ast.IfStmt
 		var muts []*ast.CallExpr
 		ast.Inspect(fd.Body, func(x ast.Node) bool {
 			switch y := x.(type) {
 			case *ast.IfStmt:
-				if strings.Contains(types.ExprString(y.Cond), ".Imports)") && strings.HasPrefix(types.ExprString(y.Cond), "len(") {
+				// a test on the number of imports: len(X.Imports), or len of a local that holds (a copy of) that list
+				isCount := false
+				ast.Inspect(y.Cond, func(m ast.Node) bool {
+					if lc, ok := m.(*ast.CallExpr); ok && len(lc.Args) == 1 && types.ExprString(lc.Fun) == "len" {
+						if strings.Contains(types.ExprString(unfold(p, fd, lc.Args[0], 0)), ".Imports") {
+							isCount = true
+						}
+						// a local that is assigned (a copy of) the list somewhere in the function
+						if id, ok := ast.Unparen(lc.Args[0]).(*ast.Ident); ok {
+							ob := info.ObjectOf(id)
+							ast.Inspect(fd.Body, func(q ast.Node) bool {
+								if as, ok := q.(*ast.AssignStmt); ok && len(as.Lhs) == len(as.Rhs) {
+									for i, l := range as.Lhs {
+										if lid, ok := l.(*ast.Ident); ok && info.ObjectOf(lid) == ob && strings.Contains(types.ExprString(as.Rhs[i]), ".Imports") {
+											isCount = true
+										}
+									}
+								}
+								return true
+							})
+						}
+					}
+					return true
+				})
+				if isCount {
 					tests = append(tests, y)
 				}
 			case *ast.CallExpr:
-				if fn := calleeOf(info, y); fn != nil && fn.Pkg() != nil && strings.HasSuffix(fn.Pkg().Path(), "ast/astutil") {
-					switch fn.Name() {
-					case "AddNamedImport", "DeleteNamedImport", "AddImport", "DeleteImport", "DeleteUnusedImports":
-						muts = append(muts, y)
-					}
+				if mutates(y, 0) {
+					muts = append(muts, y)
 				}
 			}
 			return true
@@ -1005,6 +1073,12 @@ func trailerInterfaceCovered(c *Ctx, rule string) {
 		if !records {
 			continue
 		}
+		// (only node kinds — what the node list holds; a layout record of the formatter itself is not one)
+		if nodeT, ok := pp.Types.Scope().Lookup("Node").(*types.TypeName); ok {
+			if ni, ok := nodeT.Type().Underlying().(*types.Interface); ok && !types.Implements(tn.Type(), ni) && !types.Implements(types.NewPointer(tn.Type()), ni) {
+				continue
+			}
+		}
 		byValue := types.Implements(tn.Type(), iface)
 		byPtr := types.Implements(types.NewPointer(tn.Type()), iface)
 		why := ""
@@ -1032,7 +1106,29 @@ func trailerInterfaceCovered(c *Ctx, rule string) {
 			}
 			return true
 		})
-		if local == nil {
+		// … or a function that is handed a node and returns its trailing space, with a constant as the fallback
+		returnsDefault := false
+		if local == nil && fd.Type.Results != nil && len(fd.Type.Results.List) == 1 {
+			if rt := info.TypeOf(fd.Type.Results.List[0].Type); rt != nil && types.Identical(rt, tsT.Type()) {
+				takesNode := false
+				for _, prm := range paramObjs(info, fd) {
+					if prm != nil {
+						if _, isIface := prm.Type().Underlying().(*types.Interface); isIface {
+							takesNode = true
+						}
+					}
+				}
+				ast.Inspect(fd.Body, func(x ast.Node) bool {
+					if ret, ok := x.(*ast.ReturnStmt); ok && len(ret.Results) == 1 && takesNode {
+						if tv, ok := info.Types[ret.Results[0]]; ok && tv.Value != nil {
+							returnsDefault = true
+						}
+					}
+					return true
+				})
+			}
+		}
+		if local == nil && !returnsDefault {
 			continue
 		}
 		found = true
@@ -1054,9 +1150,14 @@ func trailerInterfaceCovered(c *Ctx, rule string) {
 					ast.Inspect(cc, func(y ast.Node) bool {
 						if as, ok := y.(*ast.AssignStmt); ok {
 							for _, l := range as.Lhs {
-								if id, ok := l.(*ast.Ident); ok && info.ObjectOf(id) == local {
+								if id, ok := l.(*ast.Ident); ok && info.ObjectOf(id) == local && local != nil {
 									assigns = true
 								}
+							}
+						}
+						if ret, ok := y.(*ast.ReturnStmt); ok && returnsDefault && len(ret.Results) == 1 {
+							if tv, ok := info.Types[ret.Results[0]]; ok && tv.Value == nil {
+								assigns = true // the clause returns what the node recorded
 							}
 						}
 						return true
